@@ -548,6 +548,9 @@ def run(facts, rep, tier):
     rep.rule("C20-R11", "= C09-R8: asking for the node of an unknown key (or the parent / child of a node that has none) never answers with node 0.")
     from . import ids
     ids.rule_no_default_ids(facts, rep, "C20-R11")
+    rep.rule("C20-R12", "Trees of different graphs are disjoint: Graph::new_patch starts empty (options and front matter only) - no keys, nodes, lines or index of the library are copied.")
+    from . import forwards
+    forwards.rule_patch_is_empty(facts, rep, "C20-R12")
     rule_r6(facts, rep)
     rep.rule("C20-R3b", "Asking a block for its note gives the owner: GraphNode::key() is Some only for the root kind (Document), and Graph::node_key climbs prev until then.")
     rule_r3b(facts, rep)
